@@ -408,6 +408,11 @@ ROUTE_CORPUS = [
     ('(seq (r int) (d (seq absent absent) (seq (o int) (o bool))))', '(seq (i 5) (seq absent absent))'),
     ('(set (r int) (d (seq absent) (tag e c 1 (set (o (str 4))))))', '(seq (i 5) (seq absent))'),
     ('(seq (r int) (d (seq (i 3)) (seq (d (i 3) int))))', '(seq (i 5) (seq (i 3)))'),
+    # a CHOICE whose chosen alternative is a *tagged* CHOICE: built, cloned, decoded, as a member, as a DEFAULT
+    ('(choice (r int) (r (tag e c 0 (choice (r int) (r bool)))))', '(ch 1 (ch 0 (i 5)))'),
+    ('(choice (r int) (r (tag e c 0 (choice (r int) (r bool)))))', '(ch 1 (ch 1 (b 1)))'),
+    ('(seq (r int) (r (choice (r (str 4)) (r (tag e c 1 (choice (r int) (r bool)))))))', '(seq (i 1) (ch 1 (ch 0 (i 5))))'),
+    ('(seq (r int) (d (ch 1 (ch 0 (i 5))) (choice (r (str 4)) (r (tag e c 1 (choice (r int) (r bool)))))))', '(seq (i 1) (ch 1 (ch 0 (i 5))))'),
 ]
 
 PAIR_CORPUS = [
